@@ -20,9 +20,10 @@ type H struct {
 	c    *vrt.Ctx
 	impl gonum.Implementation
 
-	mu     sync.Mutex
-	ratios map[string]float64 // band name -> largest passing ratio
-	counts map[string]int64   // routine -> calls
+	mu      sync.Mutex
+	ratios  map[string]float64 // band name -> largest passing ratio
+	counts  map[string]int64   // routine -> calls
+	samples map[string]int     // routine -> literal samples offered
 }
 
 func (h *H) thorough() bool    { return h.c.Thorough() }
@@ -40,6 +41,8 @@ type Case struct {
 	// (sub-checks that report one root cause under one signature whatever
 	// identity exposes it).
 	sigClause string
+	// beSeen: (matrix, spectrum) pairs whose backward errors were evaluated.
+	beSeen map[uint64]bool
 }
 
 func (h *H) newCase(id string, rng *vrt.Rand) *Case {
@@ -425,6 +428,18 @@ func maxAbs(x []float64) float64 {
 // sample offers a literal sample (small inputs only) for the evidence.
 func (cs *Case) sample(routine, opts string, in map[string]any, out map[string]any) {
 	if !cs.h.c.WantSample() {
+		return
+	}
+	// At most three samples per routine, so that the eight kept samples show
+	// several routines.
+	cs.h.mu.Lock()
+	if cs.h.samples == nil {
+		cs.h.samples = map[string]int{}
+	}
+	cs.h.samples[routine]++
+	over := cs.h.samples[routine] > 3
+	cs.h.mu.Unlock()
+	if over {
 		return
 	}
 	cs.h.c.Sample(map[string]any{"routine": routine, "options": opts, "case": cs.id, "input": in, "output": out})
